@@ -509,6 +509,49 @@ def k8(ctx):
                           "%s numbers a slot with %s instead of the size of the renaming it is building: two different slots can get the same number, so different equations share one registry key and the registry hands out the stored proof of the one for the other (which equations collide depends on how the slot names sort)" % (C.short(b.id), role_str(sv)[:60]),
                           where_of(sub, c.bb))
     ctx.floor("slot numberings in the explanation code", n, 1)
+    # a key renaming numbers EVERY slot of the equation once: each loop over a side's slots contains a numbering insert that lies
+    # on every path through an iteration except the one on which the slot is already numbered (`contains_key` == true), and an
+    # insert that comes after another loop filled the same map IS behind that test (re-numbering a slot that has a number does not
+    # grow the map: the next new slot then shares its number with the previous one)
+    for b in crate.fns():
+        if "/explain/" not in (b.file or "") or b.auto_derived:
+            continue
+        sites = []
+        for c in b.calls:
+            if b.blocks[c.bb]["cleanup"] or not (c.callee and c.callee.name == "insert" and "SlotMap" in (c.callee.impl_self or "") and len(c.args) == 3):
+                continue
+            m0 = strip_role(b.role_of_operand(c.args[0]))
+            sv = strip_role(b.role_of_operand(c.args[2]))
+            if isinstance(m0, tuple) and m0[0] == "call" and m0[1] in ("new", "default") and isinstance(sv, tuple) and sv[0] == "call" and sv[1] == "numeric":
+                sites.append((c, m0))
+        if not sites:
+            continue
+        loops = [lp for lp in C.iterator_loops(b) if role_mentions_call(lp[1], "slots")]
+        for k, lp in enumerate(loops):
+            sb_, it, none_e, some_e, cs_ = lp
+            body = b.reach(some_e, avoid=none_e)
+            here = [(c, m0) for c, m0 in sites if c.bb in body]
+            present_e = []
+            for sb in b.switch_blocks():
+                if sb not in body:
+                    continue
+                r = strip_role(b.role_of_operand(b.blocks[sb]["term"]["discr"]))
+                neg = False
+                if isinstance(r, tuple) and r[0] == "un" and r[1] == "Not":
+                    r, neg = strip_role(r[2]), True
+                if isinstance(r, tuple) and r[0] == "call" and r[1] == "contains_key" and here and strip_role(r[3][0]) == here[0][1]:
+                    t = b.blocks[sb]["term"]
+                    true_e = [("e", sb, "otherwise")] if any(v == "0" for v, _ in t["cases"]) else [("e", sb, "1")]
+                    false_e = [("e", sb, "0")]
+                    present_e += (false_e if neg else true_e)
+            ok = bool(here) and b.must_pass(some_e, [sb_], {c.bb for c, _ in here} | set(present_e)) and C.loop_exhaustive(b, lp)
+            ctx.check(ok, "every-slot-numbered:%s:%d" % (C.fkey(b), k), "every slot the loop over %s visits gets a number unless it has one" % role_str(it)[:40],
+                      "%s: an iteration of the loop over %s can go on without numbering the slot (and without having found it numbered): the key renaming does not cover every slot of the equation — applying it fails, or two equations that differ in that slot share a registry key" % (C.short(b.id), role_str(it)[:40]), where_of(b, sb_))
+            earlier = any(c2.bb not in body and b.dominated_by(sb_, [c2.bb]) or (c2.bb not in body and sb_ in b.reach(b.after(c2.bb))) for c2, m2 in sites if here and m2 == here[0][1])
+            if here and earlier:
+                guarded = all(any(cond[0] == "false" and isinstance(strip_role(cond[1]), tuple) and strip_role(cond[1])[0] == "call" and strip_role(cond[1])[1] == "contains_key" for e_, cond in C.conditions_at(b, c.bb)) for c, _ in here)
+                ctx.check(guarded, "renumbering-guarded:%s:%d" % (C.fkey(b), k), "a slot that an earlier loop may have numbered is numbered only if it has no number yet",
+                          "%s numbers the slots of the second side without asking whether the first loop already numbered them: overwriting an entry does not grow the map, so the next new slot gets the number of the previous one — the renaming is not injective and different equations share a registry key" % C.short(b.id), where_of(b, here[0][0].bb))
     from . import c03
     c03.h10(ctx)
 
@@ -949,3 +992,80 @@ def k12(ctx):
 
 
 RULES.append(k12)
+
+
+@rule("K13", cfgs=EXPL, doc="the congruence step assembles its proof in the order of its operands: child i is proved by transitivity(a's i-th child proof, symmetry(b's i-th child proof)), for every child; the node-level step is prove_congruence(a.src, b.src, children); the result is symmetry(a's find-proof) ; congruence ; b's find-proof and goes out with (a.target, b.target)")
+def k13(ctx):
+    crate = ctx.lib()
+    bs = [b for b in crate.by_name.get("pc_congruence", []) if b.kind != "Closure"]
+    if len(bs) != 1:
+        raise mir.AnchorMissing("EGraph::pc_congruence")
+    b = mir.inline_view(crate, bs[0], keep=("match_pcs", "prove_symmetry", "prove_transitivity", "prove_congruence", "src_id"))
+
+    def N(r):
+        s_ = _nrm(b, r)
+        s_ = s_.replace("match_pcs(self, p2, p3).0", "A").replace("match_pcs(self, p2, p3).1", "B")
+        return s_
+    ret = N(b.role_of_local(0))
+    # the tuple / struct returned: three components
+    m = re.match(r"^\w*\{(.*)\}$", ret)
+    comps = []
+    if m:
+        depth = 0
+        cur = ""
+        for ch in m.group(1):
+            if ch in "({[":
+                depth += 1
+            if ch in ")}]":
+                depth -= 1
+            if ch == "," and depth == 0:
+                comps.append(cur.strip())
+                cur = ""
+            else:
+                cur += ch
+        comps.append(cur.strip())
+    ok = len(comps) == 3 and comps[0] == "A.pai.elem" and comps[1] == "B.pai.elem"
+    ctx.check(ok, "result-operands", "pc_congruence answers (a.target, b.target, proof) for the matched pair (a, b) in the order of its arguments",
+              "pc_congruence returns the invocations %s: they must be the targets of the first and of the second argument, in that order (the proof that goes with them proves first = second)" % comps[:2], where_of(b))
+    if len(comps) == 3:
+        want = "prove_transitivity(prove_transitivity(prove_symmetry(A.pai.proof, reg), prove_congruence(self, src_id(A), src_id(B), new()), reg), B.pai.proof, reg)"
+        ctx.check(comps[2] == want, "result-proof-chain", "the proof is symmetry(a.find-proof) ; congruence(a.src, b.src) ; b.find-proof",
+                  "pc_congruence assembles %s; it must be %s: a.target -> a.src (the reversed find-proof of a), a.src -> b.src (congruence), b.src -> b.target" % (comps[2][:220], want), where_of(b))
+    # the children
+    lp = [l for l in C.iterator_loops(b) if "node.proofs" in N(l[1])]
+    if len(lp) != 1:
+        raise mir.AnchorMissing("the loop over the child proofs in pc_congruence", "found %d" % len(lp))
+    l = lp[0]
+    it = N(l[1])
+    ctx.check(re.search(r"zip\((iter\()?A\.node\.proofs\)?, (iter\()?B\.node\.proofs\)?\)", it) is not None and C.loop_exhaustive(b, l), "children-zipped-in-order", "the child proofs of a and b are walked together, a's first, to the end",
+              "pc_congruence walks the child proofs as %s: a's on the left, b's on the right, all of them" % it[:100], where_of(b, l[0]))
+    body = b.reach(l[3], avoid=l[2])
+    pushes = [c for c in b.calls if c.bb in body and c.callee and c.callee.name == "push" and not b.blocks[c.bb]["cleanup"]]
+    okp = len(pushes) == 1 and b.must_pass(l[3], [l[0]], {pushes[0].bb})
+    ctx.check(okp, "every-child-proved", "every iteration contributes one child proof", "an iteration of the child loop of pc_congruence can pass without contributing a child proof: the congruence kernel then gets fewer proofs than the node has children", where_of(b, l[0]))
+    if pushes:
+        v = _nrm(b, _elem_source_keep(b, pushes[0]))
+        ctx.check(v == "prove_transitivity(self, E.0, prove_symmetry(self, E.1))", "child-proof-orientation", "child i is proved by transitivity(a_i, symmetry(b_i))",
+                  "pc_congruence proves a child by %s; with (a_i : child -> a's spelling, b_i : child -> b's spelling) it must be transitivity(a_i, symmetry(b_i))" % v[:120], where_of(b, pushes[0].bb))
+
+
+def _elem_source_keep(b, push):
+    """role of the pushed value with the loop element abbreviated to E (so E.0 / E.1 are the zip positions)"""
+    r = b.role_of_operand(push.args[1])
+
+    def rw(x, depth=0):
+        x = strip_role(x)
+        if not isinstance(x, tuple) or depth > 12:
+            return x
+        if x[0] == "field":
+            inner = strip_role(x[1])
+            if isinstance(inner, tuple) and inner[0] == "variant":
+                return ("param", "E")
+            return ("field", rw(x[1], depth + 1), x[2])
+        if x[0] == "call":
+            return ("call", x[1], x[2], [rw(a, depth + 1) for a in x[3]], x[4])
+        return x
+    return rw(r)
+
+
+RULES.append(k13)
